@@ -71,6 +71,8 @@ def labelOf? (j : Json) : Option Label := do
   | [.str "exitLost", i] => some (.exitLost (← jStr? i))
   | [.str "deliverStale", i, v] => some (.deliverStale (← jStr? i) (← statusOfRecs? v))
   | [.str "exit", i] => some (.exit (← jStr? i))
+  | [.str "exitBegin", i] => some (.exitBegin (← jStr? i))
+  | [.str "exitEnd", i] => some (.exitEnd (← jStr? i))
   | [.str "kill", i] => some (.kill (← jStr? i))
   | [.str "deliver", i] => some (.deliver (← jStr? i))
   | [.str "tick", d] => some (.tick (← jNat? d))
@@ -84,7 +86,7 @@ def snapshot (s : State) (ids : List Identity) : Json :=
     ("status", statusJson s.status),
     ("ops", Json.mkObj (ids.filterMap (fun i => (s.ops i).map (fun o => (i,
       Json.mkObj [("alive", .bool o.alive), ("paused", .bool o.paused), ("prio", jInt o.prio),
-                  ("sleeping", .bool o.sleeping)])))))]
+                  ("sleeping", .bool o.sleeping), ("exiting", .bool o.exiting)])))))]
 
 def handle : DrvHandler := fun op args =>
   match op, args with
@@ -130,9 +132,11 @@ def handle : DrvHandler := fun op args =>
       match step u s0 (.deliverStale me view) with
       | none => some (err "not-enabled")
       | some s1 => some (ok (Json.mkObj [("status", statusJson s1.status),
+          ("benign", .bool (benignView u s0 me prio view)),
           ("paused", match s1.ops me with | some o => .bool o.paused | none => .null),
           ("sleeping", match s1.ops me with | some o => .bool o.sleeping | none => .null)]))
   | "C13.run", [u, ids, labels] => do
+      -- a label list run from `init`: the Lean witnesses of the open findings, compared with their replays on the real code
       let u ← jInt? u
       let ids ← jStrList? ids
       let ls ← (← jArr? labels).mapM labelOf?
